@@ -45,18 +45,20 @@ def dst_name(topics_spec, t):
 class PollOracle:
     """schedule oracle: each poll is a choice among the ready sockets (and 'nothing yet' while the budget allows)"""
     def __init__(self, e, max_polls, max_none):
-        self.e = e; self.left = max_polls; self.none_left = max_none; self.trace = []
+        self.e = e; self.left = max_polls; self.none_left = max_none; self.trace = []; self.timeouts_nz = 0
     def __call__(self, ready, timeout):
         if self.left <= 0: raise PathEnd
         self.left -= 1
         if not ready:
             if timeout is None: raise PathEnd   # blocking poll with nothing ever arriving: end of the bounded stream
-            self.trace.append(None); return None
+            self.trace.append(None); self.timeouts_nz += 1; return None
         opts = list(ready)
         if self.none_left > 0: opts.append(None)
         c = self.e.choice('poll', len(opts)) if len(opts) > 1 else 0
         s = opts[c]
-        if s is None: self.none_left -= 1
+        if s is None:
+            self.none_left -= 1
+            if timeout != 0: self.timeouts_nz += 1
         self.trace.append(None if s is None else s.addr)
         return s
 
@@ -65,3 +67,125 @@ def fresh_world():
     World.reset()
     Z.ZMQContext.context = (None, 0)
     CLOCK.ms = 0
+
+
+def recv_stream(e, forms, npub, max_polls, max_none, check, drops=0, restart=False, sym_state=False, balance=False,
+                consumer_restart=False, bal_flag=None, disjoint_ids=False, low_latency=None):
+    """Build a receiver over len(forms) sources, queue a bounded symbolic stream on every connection and call the real
+    ZMQReceiver.recv until the schedule is exhausted; `check(ctx, data, st)` is the oracle for every returned set.
+
+    forms[i] = list of (addr_suffix, topics_suffix, [topic list per publish index (cycled)]) alternatives (symbolic choice)."""
+    fresh_world()
+    specs = []; plans = []
+    for i, fl in enumerate(forms):
+        k = e.choice(f'form{i}', len(fl)) if len(fl) > 1 else 0
+        asuf, tsuf, tl = fl[k]
+        addr, tspec = Filter.parse_topics(f'tcp://s{i}:{5550 + 2 * i}{asuf}{tsuf}')
+        specs.append((addr, tspec)); plans.append(tl)
+    r = Z.ZMQReceiver(specs, 'cli', balance=balance, low_latency=low_latency)
+    subs = list(r.senders)
+    ctx = type('Ctx', (), {})()
+    ctx.e = e; ctx.specs = specs; ctx.subs = subs; ctx.r = r; ctx.pubs = pubs = []; ctx.nsets = 0; ctx.last_id = None
+    ctx.eph = [r.senders[s].ephemeral for s in subs]; ctx.incarnation = 0; ctx.requests = lambda: [
+        (s.push, m) for s in r.senders.values() if s.push is not None for m in s.push.sent]
+    allparts = []; allids = []
+    for i, sub in enumerate(subs):
+        prev = -1; inc = 0; lst = []
+        for k in range(npub):
+            if restart and k > 0 and e.choice(f'restart{i}', 2):
+                inc += 1; prev = -1                      # new incarnation: ids start over (any value >= 0)
+            m = e.fresh_int(f'id{i}_{k}', 0)
+            e.assume(m > prev); prev = m
+            if disjoint_ids:
+                for o in allids: e.assume(m != o)
+            allids.append(m)
+            topics = plans[i][k % len(plans[i])]
+            parts = wire_parts(f'S{i}.{inc}', m, topics, i, inc, bal=bal_flag)
+            lst.append((m, topics, inc, {p[2].topic: p[2] for p in parts if len(p) > 2}))
+            for part in parts: allparts.append((sub, part))
+        pubs.append(lst)
+    dropped = set()
+    for d in range(drops):
+        j = e.choice('drop', len(allparts) + 1)
+        if j < len(allparts): dropped.add(j)
+    for j, (sub, part) in enumerate(allparts):
+        if j not in dropped: sub.deliver(part)
+    World.oracle = PollOracle(e, max_polls, max_none)
+    state = Z.ZMQStateRecv(e.fresh_int('state0', 0)) if sym_state else None
+    try:
+        while True:
+            data, st = r.recv(state, None)
+            state = None
+            ctx.nsets += 1
+            e.observed(f'sets{ctx.nsets}')
+            check(ctx, data, st)
+            ctx.last_id = st.msg_id
+            if consumer_restart and ctx.incarnation == 0 and e.choice('crestart', 2):
+                # consumer process restarts: a fresh receiver on the same connections (what is queued stays queued)
+                old = r; r = Z.ZMQReceiver(specs, 'cli', balance=balance); ctx.r = r
+                for o, n in zip(subs, list(r.senders)): n.inq = o.inq
+                subs[:] = list(r.senders); ctx.incarnation = 1; ctx.last_id = None
+    except PathEnd:
+        e.path_info.update(sets=ctx.nsets, trace=[str(t) for t in World.oracle.trace][:24])
+        raise
+
+
+def check_one_id_and_complete(ctx, data, st):
+    """C01 oracle"""
+    e = ctx.e; idstar = st.msg_id
+    for key, frame in data.items():
+        tag = frame[1]
+        if ctx.eph[tag.src]: continue
+        if tag.mid != idstar:
+            e.fail('mixed', f'set returned for id {idstar} contains {tag!r} (dst {key!r}); full set {data!r}', {'kind': 'mixed'})
+    for i in range(len(ctx.subs)):
+        if ctx.eph[i]: continue
+        tspec = ctx.specs[i][1]
+        cands = [p for p in ctx.pubs[i] if p[0] == idstar]
+        got = sorted(k for k, f in data.items() if f[1].src == i)
+        if not cands:
+            e.fail('missing-source', f'set for id {idstar} although source {i} published nothing under that id; got {data!r}',
+                   {'kind': 'missing-source'})
+        wants = [sorted(dst_name(tspec, t) for t in c[1] if subscribed(tspec, t)) for c in cands]
+        if got not in wants:
+            e.fail('partial', f'source {i} published {[c[1] for c in cands]} under id {idstar}, subscription {tspec}, delivered {got}',
+                   {'kind': 'partial', 'sub_all': tspec is None})
+
+
+# ------------------------------------------------------------------------------------------------ publisher side
+
+def build_sender(e, nouts=1, balance=False, slots=(), outs_required=None):
+    """a real ZMQSender whose client table is an arbitrary state satisfying the representation invariant:
+    slots = [(client_id, ephemeral or None for symbolic choice)]; per slot: present?, output, requested, t_last <= now, prev_id >= -1"""
+    fresh_world()
+    CLOCK.ms = now = e.fresh_int('now', 0)
+    addrs = [f'tcp://*:{5550 + 2 * i}' for i in range(nouts)]
+    s = Z.ZMQSender(addrs if nouts > 1 else addrs[0], 'srv', balance=balance, outs_required=outs_required)
+    s.min_send_id = e.fresh_int('min_send_id', 0)
+    model = {}
+    for j, (cid, eph) in enumerate(slots):
+        if not e.choice(f'present{j}', 2): continue
+        out = e.choice(f'out{j}', nouts) if nouts > 1 else 0
+        if eph is None: eph = e.choice(f'eph{j}', 2)
+        requested = bool(e.choice(f'requested{j}', 2))
+        t_last = e.fresh_int(f't_last{j}', 0); e.assume(t_last <= now)
+        prev_id = e.fresh_int(f'prev_id{j}', -1)
+        full = cid + 'u'
+        s.clients[full] = Z.ZMQSender.Client(cid, s.pulls[out], t_last, requested, eph, prev_id)
+        model[full] = dict(cid=cid, out=out, eph=eph, requested=requested, t_last=t_last, prev_id=prev_id)
+    return s, model, now
+
+
+def queue_request(s, out, cid, mid, eph=0, new=False):
+    env = {'cid': cid, 'uid': 'u', 'mid': mid}
+    if eph: env['eph'] = eph
+    if new: env['new'] = True
+    s.pulls[out].inq.append([Env(env)])
+
+
+def data_publishes(pub):
+    return [m for m in pub.sent if m[0] != b'//']
+
+
+def in_order_oracle(ready, timeout):
+    return ready[0] if ready else None
